@@ -3,7 +3,8 @@
 // bitmap) is printed after every operation and compared structurally with the extracted model.
 // assert() inside iwfsmfile.c is routed to a counter (release-build behaviour: execution continues) - the count is
 // printed as A=<n>; the oracle treats a failed internal assertion as evidence of an inconsistent map.
-#include "iwutils.h" /* pulls <assert.h> once; guarded, so the redefinition below stays in force */
+#include "iwutils.h" /* pulls <assert.h>; guarded, so the redefinition below stays in force */
+#include "iwcfg.h"   /* the other header of iwfsmfile.c that pulls <assert.h> (it re-armed the libc assert before) */
 // One assert of iwfsmfile.c restates a check on CALLER-SUPPLIED arguments (the range guard of _fsm_set_bit_status_lw:
 // `fsm->bmlen * 8 >= offset_bits + length_bits`, followed by the `if` that returns IWFS_ERROR_FSM_SEGMENTATION).  Its
 // failures say "the caller passed a range behind the bitmap", not "the map is inconsistent"; they are counted
@@ -141,7 +142,7 @@ int main(int argc, char **argv) {
       printf("%" PRIu64, (uint64_t) rc); dump_state();
     } else if (!strcmp(c, "chk") && n >= 4) {
       iwrc rc = F.check_allocation_status(&F, strtoll(tv[1], 0, 10), strtoll(tv[2], 0, 10), atoi(tv[3]) != 0);
-      printf("%" PRIu64 "\n", (uint64_t) rc);
+      printf("%" PRIu64 " U=%d A=%d\n", (uint64_t) rc, h_assert_user, h_assert_failed);
     } else if (!strcmp(c, "w") && n >= 4) { // w addr len seed : fill the region with the pattern of seed
       off_t addr = strtoll(tv[1], 0, 10); size_t len = strtoull(tv[2], 0, 10), sp = 0; uint64_t seed = strtoull(tv[3], 0, 10);
       uint8_t *buf = malloc(len + 1);
